@@ -1847,4 +1847,30 @@ theorem undriven_server_never_completes (C : Cfg) (P : HsP) (dc : Bytes) (rx : N
     ¬ (SysAS.run C P dc rx l (SysAS.init P segs)).bothFinished :=
   C18Hs.undriven_server_never_completes C P dc rx segs l hl
 
+/-! ### an asynchronous endpoint of either role with a send queue (readable AND writable tasks, `POLLOUT` protocol) -/
+
+theorem readable_task_clears_flag (C : Cfg) (hC : 0 < C.stepsMax) (P : HsP) (r : Bool) (rx : Nat) (s : St Hs Chan)
+    (hw : WF P s.e) (hle : s.g.lastError = .none ∨ s.g.lastError = .wantRead) :
+    (receiveReadable C (chanWorld r) (engine P) s rx).2.g.isReadable = false :=
+  C18Hs.readable_task_clears_flag C hC P r rx s hw hle
+
+theorem writable_task_progress (C : Cfg) (hC : 1 < C.stepsMax) (P : HsP) (r : Bool) (buf : Bytes) (hb : buf ≠ [])
+    (s : St Hs Chan) (hi : SideInv P r buf (nf s)) (hir : s.g.isReadable = false) :
+    ∃ k s', sendSomeWritable C (chanWorld r) (engine P) s buf = (.ok k, s') ∧ SideInv P r buf (nf s') ∧
+      Tr P r s.e s.w s'.e s'.w ∧ (CanProg r s.e s.w → work P s'.e < work P s.e) ∧ Tight (nf s') ∧
+      s'.g.isReadable = false ∧
+      ((k = buf.length ∧ 3 ≤ s'.e.stage ∧ s'.g.lastError = .none ∧ s'.g.pendingSend = []) ∨ k = 0) :=
+  C18Hs.writable_task_progress C hC P r buf hb s hi hir
+
+theorem handshake_completes_async_endpoint (C : Cfg) (hC : 1 < C.stepsMax) (P : HsP) (u : Bool) (dc ds : Bytes)
+    (hdc : dc ≠ []) (hds : ds ≠ []) (rx : Nat) (hrx : 1 ≤ rx) (segs : List Nat) (q : List Bytes)
+    (hq : ∀ b ∈ q, b ≠ []) (hfed : u = true → q ≠ []) (w : Nat) (l : List ActG) (hok : ∀ a ∈ l, a.okG)
+    (hf : C18Hs.GFair w l) (j : Nat) (hj : j ≤ l.length) :
+    (SysAG.run C P u dc ds rx (l.take j) (SysAG.init P u segs q)).faults = 0 ∧
+    ((SysAG.run C P u dc ds rx (l.take j) (SysAG.init P u segs q)).x.a.sendQ ≠ [] ↔
+      ((SysAG.run C P u dc ds rx (l.take j) (SysAG.init P u segs q)).x.a.pollOut = true ∨
+       (SysAG.run C P u dc ds rx (l.take j) (SysAG.init P u segs q)).x.s.g.driverSendSuppressed = true)) ∧
+    (P.total * w ≤ j → (SysAG.run C P u dc ds rx (l.take j) (SysAG.init P u segs q)).bothFinished) :=
+  C18Hs.handshake_completes_async_endpoint C hC P u dc ds hdc hds rx hrx segs q hq hfed w l hok hf j hj
+
 end SockModel.Hs
